@@ -5,5 +5,10 @@ cd "$(dirname "$0")"
 export GOFLAGS=-mod=mod GOPROXY=off GOSUMDB=off GOTOOLCHAIN=local
 mkdir -p bin evidence replays
 (cd engine && go build -o ../bin/gosym .)
+# translator validation: the repository's own test vectors through the engine in concrete mode
+export VERIF_DIR="$(pwd)"
+for h in asn1parser-vectors hashing-vectors; do
+  ./bin/gosym -prop SELFTEST -tier quick -only $h > /tmp/verif_selftest.log 2>&1 || { cat /tmp/verif_selftest.log; echo "setup: translator self-test FAILED ($h)"; exit 1; }
+done
 ./validate.sh || { echo "setup: model validation against the real libraries FAILED"; exit 1; }
 echo "setup ok: $(./bin/gosym -h 2>&1 | head -1)"
